@@ -245,9 +245,17 @@ def r12(ctx):
     if w is None:
         ctx.ok('C02.R1', 'make_move (out-parameter) and make_move_new (return value) produce the same expression over (self, m)', where(sm.body))
     else:
+        # Not literally the same expression.  The two bodies are then held to the rules R4-R8 (and C03.R3 for the cache
+        # tail) one by one: those rules fix every field of the produced board, so two bodies that both satisfy them agree.
         path, a, b = w
-        ctx.violation('C02.R1', 'twin:' + path[:80], 'the two move-application entry points diverge at %s: make_move has %s, make_move_new has %s' % (
-            path or 'the top level', sh(a, 160), sh(b, 160)), where(sm.body))
+        before = len(ctx.violations) + len(ctx.inconclusives)
+        r48(ctx, sm, result=fin, KEY=MM)
+        if len(ctx.violations) + len(ctx.inconclusives) == before:
+            ctx.ok('C02.R1', 'make_move and make_move_new are spelled differently (first difference at %s) but each satisfies R4-R8 on its own; '
+                   'the cache tail of both is compared by C03.R3' % (path or 'the top level'), where(sm.body))
+        else:
+            ctx.violation('C02.R1', 'twin:' + path[:80], 'the two move-application entry points diverge at %s (make_move has %s, make_move_new has %s) '
+                          'and make_move does not satisfy R4-R8 on its own' % (path or 'the top level', sh(a, 160), sh(b, 160)), where(sm.body))
     return sn
 
 
@@ -360,7 +368,11 @@ def lit_kinds(ctx, s, conj, M, SRC, DST):
     return out
 
 
-def r48(ctx, sn):
+def r48(ctx, sn, result=None, KEY=None):
+    """R4-R8 for one move-application body: `result` is the produced board (return value of make_move_new, or the final
+    content of make_move's out-parameter), KEY its function key"""
+    result = sn.ret if result is None else result
+    KEY = KEY or MN
     an = ctx.an()
     f = ctx.facts()
     body = sn.body
@@ -368,11 +380,11 @@ def r48(ctx, sn):
     STM = ('field', SELF, 'side_to_move')
     OPP = cnot(STM)
     # --- R4
-    side = bb(mk_field(sn.ret, 'side_to_move', an), an)
+    side = bb(mk_field(result, 'side_to_move', an), an)
     if side == OPP:
         ctx.ok('C02.R4', 'result.side_to_move = !self.side_to_move on every path', w)
     else:
-        ctx.violation('C02.R4', MN + ':side', 'side to move of the result is %s' % sh(side, 200), w)
+        ctx.violation('C02.R4', KEY + ':side', 'side to move of the result is %s' % sh(side, 200), w)
     # moved piece / squares
     SRC = call('chess_move::ChessMove::get_source', MV, gargs=())
     DST = call('chess_move::ChessMove::get_dest', MV, gargs=())
@@ -388,8 +400,8 @@ def r48(ctx, sn):
     if evs[0]['name'] == 'remove_ep' and uncond(evs[0]):
         ctx.ok('C02.R6', 'en_passant is reset (remove_ep) before anything else, unconditionally', where(body, evs[0]['call']['line']))
     else:
-        ep_first = mk_field(sn.ret, 'en_passant', an)
-        ctx.violation('C02.R6', MN + ':ep-reset', 'the en-passant state of the source is not cleared first (first event: %s)' % evs[0]['name'],
+        ep_first = mk_field(result, 'en_passant', an)
+        ctx.violation('C02.R6', KEY + ':ep-reset', 'the en-passant state of the source is not cleared first (first event: %s)' % evs[0]['name'],
                       where(body, evs[0]['call']['line']))
     sre = ctx.an().summary('board::Board::remove_ep')
     if sre is not None:
@@ -498,7 +510,7 @@ def r48(ctx, sn):
                 problems.append(('C02.R6', 'set_ep-guard', 'set_ep(%s) is not guarded by (pawn, no promotion, source on a double-move source rank, destination '
                                  'on a double-move destination rank): %s' % (sh(a, 60), [sorted((str(k), v) for k, v in c.items() if k != 'castles-expr') for c in conds][:1]), line))
     for rule, key, msg, line in problems:
-        ctx.violation(rule, MN + ':' + key, msg, where(body, line))
+        ctx.violation(rule, KEY + ':' + key, msg, where(body, line))
     need = [('C02.R8', 'src', 'mover removed from the source square with the mover\'s colour, unconditionally'),
             ('C02.R8', 'dst', 'mover added on the destination square, unconditionally'),
             ('C02.R8', 'capture', 'a piece standing on the destination is removed with the opponent\'s colour (iff piece_on(dest) is Some)'),
@@ -512,11 +524,11 @@ def r48(ctx, sn):
         if seen[k]:
             ctx.ok(rule, desc, w)
         elif not any(p[0] == rule for p in problems):
-            ctx.violation(rule, MN + ':missing:' + k, 'missing: ' + desc, w)
+            ctx.violation(rule, KEY + ':missing:' + k, 'missing: ' + desc, w)
     if seen['promo-knight'] == 2 and seen['promo-other'] == 2:
         ctx.ok('C02.R8', 'promotion: the pawn on the destination is replaced by the promotion piece (knight branch and general branch)', w)
     elif not any(p[1].startswith('promo') for p in problems):
-        ctx.violation('C02.R8', MN + ':promotion', 'promotion toggles incomplete (knight branch %d/2, general branch %d/2)' % (seen['promo-knight'], seen['promo-other']), w)
+        ctx.violation('C02.R8', KEY + ':promotion', 'promotion toggles incomplete (knight branch %d/2, general branch %d/2)' % (seen['promo-knight'], seen['promo-other']), w)
     ctx.floor('C02.R8', 'placement toggles in make_move_new', n_xor, 6)
     # castles flag definition
     cexprs = [c.get('castles-expr') for e in evs for conj in e['dnf'] for c in [lit_kinds(ctx, sn, conj, M, SRC, DST)] if c.get('castles-expr') is not None]
@@ -534,7 +546,7 @@ def r48(ctx, sn):
         if okc:
             ctx.ok('C02.R7', 'castling condition: moved == King && (from|to) subset of CASTLE_MOVES', w)
         else:
-            ctx.violation('C02.R7', MN + ':castles-flag', 'the castling condition is not `moved == King && (move_bb & CASTLE_MOVES) == move_bb`: ' + sh(ce, 300), w)
+            ctx.violation('C02.R7', KEY + ':castles-flag', 'the castling condition is not `moved == King && (move_bb & CASTLE_MOVES) == move_bb`: ' + sh(ce, 300), w)
     # set_ep body
     ss = ctx.an().summary('board::Board::set_ep')
     if ss is not None:
